@@ -21,7 +21,7 @@ PLAN = {'quick': {'gen': 8}, 'thorough': {'gen': 16, 'tests': 1, 'docs': 1}}
 REQUIRED_BUCKETS = ['pad:2d', 'pad:cube', 'pad:nonsquare-cube', 'pad:grow', 'pad:shrink', 'pad:mixed',
                     'pad:parity-change', 'subarray', 'window', 'boundary', 'slice_offset', 'centroid', 'rebin',
                     'rebin:cube', 'rebin:small-int', 'mesh', 'shape:circle', 'shape:hexagon', 'shape:rectangle', 'shape:spider', 'shape:sequence', 'shape:binary',
-                    'shape:antialias', 'hexseg', 'hexseg:gap0', 'hexseg:drop', 'hexseg:drop-repeated']
+                    'shape:antialias', 'hexseg', 'hexseg:gap0', 'hexseg:drop', 'hexseg:drop-repeated', 'rescale:origin']
 REQUIRED_ANCHORS = ['probe:pad', 'anchor:mesh', 'anchor:hex_to_rc', 'anchor:slice_offset', 'anchor:boundary_slice']
 REQUIRED_ORACLES = ['pad=index', 'pad-crop=id', 'subarray=index', 'window=index', 'boundary=set',
                     'slice_offset=render', 'centroid', 'rebin=blocks', 'mesh', 'shape:range', 'shape:binary',
@@ -350,6 +350,18 @@ def workload(ctx, lentil):
         ctx.close('centroid', np.array([cr2, cc2]), np.array(ref), 1e-12, 'centroid|scale-invariant',
                   'the centroid depends on the absolute brightness of the image', dict(desc, factor=cfac), scale=max(s))
 
+    # ---- rescale: what sits on the origin sample stays on the origin sample (odd and even sizes, in and out) ------
+    for i in range(max(6, n // 30)):
+        m_ = int(rng.integers(21, 70))
+        sc = float(rng.choice([2, 3, 0.5, 1.5, 1.01, 2.5]))
+        rad = float(rng.uniform(4, m_ / 4))
+        img = lentil.circle((m_, m_), rad)
+        out = U.rescale(img, sc)
+        ctx.case({'op': 'rescale-origin', 'n': m_, 'scale': sc}, ['rescale:origin'])
+        cr, cc = U.centroid(out)
+        ctx.close('centroid', np.array([cr, cc]), np.array([out.shape[0] // 2, out.shape[1] // 2], float), 1.0, 'rescale|origin',
+                  'rescale moved a disc centred on the origin sample off the origin sample floor(N/2) of its output',
+                  {'n': m_, 'scale': sc, 'out': list(out.shape), 'centroid': [float(cr), float(cc)]}, scale=2e-2)
     # ---- rebin / mesh ---------------------------------------------------------------
     for i in range(n):
         f = int(rng.integers(1, 5))
